@@ -18,7 +18,20 @@ from sim import outcome, rng, seams, shrink, workload
 ID = "C13"
 MODULE = "checks.c13_factories"
 SIG_CLASSES = ["plain", "name", "kwonly", "varkw", "object", "partial", "builtin"]
-FAULTS = ["raise", "type-list", "type-none", "type-scalar", "shape-extra", "shape-transposed", "shape-broadcast"]
+FAULTS = ["raise", "type-list", "type-none", "type-scalar", "type-duck", "type-memoryview", "type-npscalar", "shape-extra", "shape-transposed", "shape-broadcast"]
+
+
+class Duck:
+    """Not a tensor of the backend, although it carries the right .shape and converts to an array."""
+
+    def __init__(self, arr):
+        self._arr = arr
+        self.shape = arr.shape
+        self.dtype = arr.dtype
+        self.ndim = arr.ndim
+
+    def __array__(self, dtype=None, copy=None):
+        return self._arr if dtype is None else self._arr.astype(dtype)
 FAMS = ["id", "reduce", "reduce", "elem", "elem", "dot", "get_at", "update_at", "argfind", "pres", "idcat"]
 
 
@@ -104,6 +117,12 @@ def make_factory(sigclass, arr, pos, log, fault=None):
             return None
         if fault == "type-scalar":
             return 3.5
+        if fault == "type-duck":
+            return Duck(arr.copy())
+        if fault == "type-memoryview":
+            return memoryview(np.ascontiguousarray(arr)) if arr.ndim >= 1 and arr.dtype != bool else Duck(arr.copy())
+        if fault == "type-npscalar":
+            return arr.dtype.type(arr.reshape(-1)[0]) if arr.ndim == 0 else Duck(arr.copy())
         if fault == "shape-extra":
             return np.zeros(tuple(shape) + (1,), dtype=arr.dtype)
         if fault == "shape-transposed":
